@@ -95,6 +95,11 @@ func genScenario(r *common.Rand, kind string, seed uint64) *scenario {
 			s.pool = append(s.pool, string(b))
 		}
 	}
+	if r.Chance(1, 3) {
+		// the empty code is what an invalidated cache entry holds: a late result
+		// stored after InvalidateCache would be served for Get("")
+		s.pool = append(s.pool, "")
+	}
 	nActors := r.Range(1, 4)
 	mk := func(n int, wGet, wInv, wEpoch int) []action {
 		var as []action
@@ -146,6 +151,19 @@ func genScenario(r *common.Rand, kind string, seed uint64) *scenario {
 		if r.Chance(1, 3) {
 			s.actors = append(s.actors, mk(r.Range(1, 6), 6, 1, 0))
 		}
+	case "inv": // Get(c) with a slow lookup, InvalidateCache while it is in flight, then Get("")
+		s.pool = []string{common.Pick(r, withCmd), "", common.Pick(r, withCmd) + " "}
+		s.delayMax = common.Pick(r, []int{300, 1000, 3000})
+		s.block = common.Pick(r, []time.Duration{20 * time.Microsecond, 100 * time.Microsecond})
+		var as []action
+		for i := r.Range(1, 3); i > 0; i-- {
+			as = append(as, action{kind: 'G', code: 0}, action{kind: 'V', pause: genPause(r)},
+				action{kind: 'G', code: 1, pause: 40 + r.Intn(400)}, action{kind: 'G', code: 1, pause: genPause(r)})
+			if r.Chance(1, 3) {
+				as = append(as, action{kind: 'G', code: 2, pause: genPause(r)})
+			}
+		}
+		s.actors = [][]action{as}
 	case "oob": // some codes make Check report a range outside the code: Get panics
 		s.check = "oobmark"
 		s.pool = append(s.pool, "ls OOB", "OOB", "echo 'OOB' | x")
@@ -365,7 +383,7 @@ func runScenario(s *scenario) (trace []entry, hang string) {
 
 func genConc(c *common.Ctx, emit func(...string)) {
 	n := c.Scale(220, 6000)
-	kinds := []string{"seq", "race", "aba", "race", "epoch", "seq", "aba", "oob"}
+	kinds := []string{"seq", "race", "aba", "race", "epoch", "seq", "aba", "oob", "inv"}
 	failures := 0
 	for i := 0; i < n && failures < 3; i++ {
 		kind := kinds[i%len(kinds)]
